@@ -54,14 +54,14 @@ def _same_cfg(v, a, b):
 
 
 def cfg_nest_case(v, depth, rich_levels=2):
-    saved = cfg._CONTEXT_CONFIG
+    saved = get_config_context(validation_depth_default=None)
     try:
         pre = PanderaConfig(validation_enabled=v.bool("s_en"), validation_depth=v.choice("s_d", D), cache_dataframe=v.bool("s_c"),
                             keep_cached_dataframe=v.bool("s_k"))
-        cfg._CONTEXT_CONFIG = pre
+        cfg.reset_config_context(pre)  # public API only: independent of how pandera.config stores the context
         from copy import copy as _copy
 
-        pre = _copy(pre)  # config_context mutates the live object in place
+        pre = _copy(pre)
         asserts = []
 
         def level(k):
@@ -95,7 +95,7 @@ def cfg_nest_case(v, depth, rich_levels=2):
         asserts.append(("restored/final", v.holds(_same_cfg(v, post, pre))))
         return dict(obs=None, asserts=asserts, facts=dict(depth=depth))
     finally:
-        cfg._CONTEXT_CONFIG = saved
+        cfg.reset_config_context(saved)
 
 
 def _hon(v, seen, entry, a_en, a_c, a_d):
@@ -182,20 +182,21 @@ def polars_depth_case(v):
     import polars as pl
     from pandera.api.polars.utils import get_validation_depth
 
-    saved_ctx, saved_glob = cfg._CONTEXT_CONFIG, cfg.CONFIG
+    saved_ctx, saved_glob = get_config_context(validation_depth_default=None), cfg.CONFIG
     try:
         c_d, g_d = v.choice("ctx_d", D), v.choice("glob_d", D)
         kind = v.choice("kind", ["DataFrame", "LazyFrame"])
         cfg.CONFIG = PanderaConfig(validation_depth=g_d)
         for mname, mod in list(sys.modules.items()):
             pass
-        cfg._CONTEXT_CONFIG = PanderaConfig(validation_depth=c_d)
+        cfg.reset_config_context(PanderaConfig(validation_depth=c_d))
         obj = pl.DataFrame({"a": [1]}) if kind == "DataFrame" else pl.LazyFrame({"a": [1]})
         got = get_validation_depth(obj)
         want = c_d if c_d is not None else g_d if g_d is not None else (ValidationDepth.SCHEMA_AND_DATA if kind == "DataFrame" else ValidationDepth.SCHEMA_ONLY)
         return dict(obs=None, asserts=[("polars_default_depth", v.holds(got is want))], facts=dict(kind=kind, ctx=str(c_d), glob=str(g_d), got=str(got)))
     finally:
-        cfg._CONTEXT_CONFIG, cfg.CONFIG = saved_ctx, saved_glob
+        cfg.CONFIG = saved_glob
+        cfg.reset_config_context(saved_ctx)
 
 
 # ------------------------------------------------------------------ (b) CrossHair conditions
